@@ -351,5 +351,5 @@ def selftest():
     equiv.selftest()
     assert len(list(opt_product())) == 48 * 20
     a = node_canon([_n_shared()])
-    b = node_canon([yaml.compose('&x [1]\n')])
+    b = node_canon([yaml.SequenceNode('tag:yaml.org,2002:seq', [yaml.ScalarNode('tag:yaml.org,2002:int', '1')])])
     assert a != b and node_canon([_n_rec()])[0][2] == (('ref', 0),)
